@@ -11,7 +11,7 @@ run_one() {
   local tmp; tmp=$(mktemp -d "${TMPDIR:-/var/tmp}/gocv-mut-XXXXXX")
   rsync -a --exclude .git --exclude cmd/validate/validate "${VERIF_REPO:-/repo}/" "$tmp/"
   if ! (cd "$tmp" && patch -p1 -s < "$root/$patch"); then echo "SELFTEST $id $(basename $patch): patch does not apply"; rm -rf "$tmp"; bad=1; return; fi
-  local out; out=$(bin/gocv verify --property "$id" --tier quick --repo "$tmp" --verif "$(pwd)" --no-evidence --scratch 2>/dev/null); local code=$?
+  local out; out=$(bin/gocv verify --property "$id" --tier quick --repo "$tmp" --verif "$(pwd)" --no-evidence --scratch --fail-fast 2>/dev/null); local code=$?
   rm -rf "$tmp"
   local first; first=$(echo "$out" | grep -m1 '^VIOLATION' | sed "s#$tmp#<scratch>#")
   if [ "$expect" = fail ]; then
